@@ -168,6 +168,13 @@ def r15_1(ctx, g):
             sides.add(hit[0])
         elif len(hit) != 1:
             untraced.append(src[:60])
+    # every entry of a side is removed: nothing inside the loop decides to leave one out
+    for l in loops:
+        skips = [x for x in ast.walk(l) if isinstance(x, (ast.Continue, ast.Break))]
+        cond = [x for x in l.body if isinstance(x, ast.If) and any(isinstance(c, ast.Call) and isinstance(c.func, ast.Attribute) and c.func.attr == "remove_edge" for c in ast.walk(x))]
+        if skips or cond:
+            t = norm((cond[0] if cond else next(x for x in l.body if isinstance(x, ast.If))).test)[:60] if (cond or any(isinstance(x, ast.If) for x in l.body)) else "?"
+            ctx.violated("R15.1", rn.where(l), f"remove_node leaves out the links for which `{t}`: a link that is not removed keeps the neighbour pointing at the deleted node (two links of the node may agree in neighbour, side and overlap and still be two links)", key_of(rn, f"remove-node-filter:{t[:40]}"))
     if untraced and sides != {"start", "end"}:
         raise AnalysisError("R15.1", rn.where(), f"cannot trace which adjacency set a link-removing loop of remove_node walks over ({untraced})")
     ctx.check(sides == {"start", "end"}, "R15.1", rn.where(), "remove_node removes the links of both sides of the node, iterating over copies of the adjacency sets", key_of(rn, f"remove-node-sides:{sorted(sides)}"), sides=sorted(sides))
